@@ -2018,6 +2018,9 @@ func unmarshalInet(info TypeInfo, data []byte, value interface{}) error {
 
 func marshalTuple(info TypeInfo, value interface{}) ([]byte, error) {
 	tuple := info.(TupleTypeInfo)
+	if value == nil {
+		return nil, nil
+	}
 	switch v := value.(type) {
 	case unsetColumn:
 		return nil, unmarshalErrorf("Invalid request: UnsetValue is unsupported for tuples")
@@ -2036,6 +2039,12 @@ func marshalTuple(info TypeInfo, value interface{}) ([]byte, error) {
 			data, err := Marshal(tuple.Elems[i], elem)
 			if err != nil {
 				return nil, err
+			}
+
+			if data == nil {
+				// a nil pointer, slice or map marshals to null, not to an empty value
+				buf = appendInt(buf, int32(-1))
+				continue
 			}
 
 			n := len(data)
@@ -2070,6 +2079,12 @@ func marshalTuple(info TypeInfo, value interface{}) ([]byte, error) {
 				return nil, err
 			}
 
+			if data == nil {
+				// a nil pointer, slice or map marshals to null, not to an empty value
+				buf = appendInt(buf, int32(-1))
+				continue
+			}
+
 			n := len(data)
 			buf = appendInt(buf, int32(n))
 			buf = append(buf, data...)
@@ -2094,6 +2109,12 @@ func marshalTuple(info TypeInfo, value interface{}) ([]byte, error) {
 			data, err := Marshal(elem, item.Interface())
 			if err != nil {
 				return nil, err
+			}
+
+			if data == nil {
+				// a nil pointer, slice or map marshals to null, not to an empty value
+				buf = appendInt(buf, int32(-1))
+				continue
 			}
 
 			n := len(data)
@@ -2248,6 +2269,9 @@ type UDTUnmarshaler interface {
 
 func marshalUDT(info TypeInfo, value interface{}) ([]byte, error) {
 	udt := info.(UDTTypeInfo)
+	if value == nil {
+		return nil, nil
+	}
 
 	switch v := value.(type) {
 	case Marshaler:
